@@ -351,6 +351,12 @@ func Build(cfg *Cfg, env *Env) (*Sys, error) {
 	}
 	sys.Sto, sys.CanRemove, sys.ReadOnly = sto, canRemove, readOnly
 	sys.Nodes["r"] = sto
+	// stores that can be shut down (blobpacked closes its meta index) are, so that long runs do not leak descriptors
+	for _, n := range sys.Nodes {
+		if cl, ok := n.(blobserver.ShutdownStorage); ok && fmt.Sprintf("%T", n) == "*blobpacked.storage" {
+			sys.closers = append(sys.closers, func() { cl.Close() })
+		}
+	}
 	return sys, nil
 }
 
